@@ -39,6 +39,7 @@ pub struct Call {
     pub result: Option<RpcResult>,
     pub tx: Option<oneshot::Sender<RpcResult>>,
     pub epoch: u32,
+    pub lc: u32,
 }
 
 #[derive(Clone, Debug)]
@@ -250,6 +251,7 @@ impl Sim {
                 result: None,
                 tx: Some(tx),
                 epoch: self.epoch,
+                lc,
             },
         );
         rx
